@@ -67,7 +67,8 @@ class ServiceAnalysis:
         names = set(inline_names)
 
         def inline(fi):
-            return fi.name in names and fi.module.name == 'sopclass'
+            # private module-level helpers of sopclass.py are looked into (``_send_response`` and any later one)
+            return fi.module.name == 'sopclass' and fi.cls is None and (fi.name in names or fi.name.startswith('_'))
 
         def raises(node, client, state):
             out = svc_raises(node, client, state)
